@@ -23,6 +23,8 @@ package pqueue
 //@ func (*Queue[T]).Acquire(ctx, e) (done, err)
 //@   prop C17
 //@   ensures error-means-no-slot: err != nil ==> done == nil
+//@   ensures success-gives-a-release-function: err == nil ==> done != nil
+//@   on-recv call:Done: $endedCtx = recv
 
 //@ func (*Queue[T]).TryAcquire(ctx, e) (done, err)
 //@   prop C17
@@ -30,6 +32,10 @@ package pqueue
 
 //@ func (*Queue[T]).release(prev)
 //@   prop C17
+
+//@ func (*Queue[T]).releaseFn(prev) (fn)
+//@   prop C17
+//@   ensures a-release-function: fn != nil
 
 // C17: AcquireMulti neither keeps nor loses a slot. Ghost $slotHeld[k]: this call currently
 // holds the slot of qList[k] (set when Acquire / TryAcquire hand out a release function, cleared
